@@ -221,6 +221,7 @@ def check_trace(rep, t, meta):
 
 def check_sched(rep, results):
     base = None
+    large_base = [None]
     for nt, res in results:
         if 'crashed' in res:
             rep.violation('worker-crashed:sched', f'the scheduled runs (NUMBA_NUM_THREADS={nt}) crashed',
@@ -228,6 +229,24 @@ def check_sched(rep, results):
             continue
         if res['numba_threads'] != nt:
             rep.violation('worker-env', 'NUMBA_NUM_THREADS was not honoured', {'want': nt, 'got': res['numba_threads']})
+        # large arrays: bit for bit the 1-thread answer, stable over repeats, equal to the scalar form
+        if large_base[0] is None:
+            large_base[0] = res.get('large', {})
+        rep.evaluations += len(res.get('large', {}))
+        rep.count('large-array-kernels', len(res.get('large', {})))
+        if nt > 1:
+            rep.nontrivial(('large', nt, res.get('large_n')))
+        for nm in res.get('large_unstable', []):
+            fam = ':'.join(nm.split(':')[1:3])
+            rep.violation(f'thread-dependent:{fam}', f'{nm} on {res.get("large_n")} elements differs between '
+                          f'repeated runs (NUMBA_NUM_THREADS={nt})', {'numba_threads': nt, 'op': nm, 'kind': 'sched'})
+        for nm in sorted(k for k in large_base[0] if res.get('large', {}).get(k) != large_base[0][k]):
+            fam = ':'.join(nm.split(':')[1:3])
+            rep.violation(f'thread-dependent:{fam}', f'{nm} on {res.get("large_n")} elements differs from the '
+                          f'1-thread result (NUMBA_NUM_THREADS={nt})', {'numba_threads': nt, 'op': nm, 'kind': 'sched'})
+        for nm in res.get('large_scalar_bad', []):
+            rep.violation('array-vs-scalar:' + nm.split('[')[0], f'{nm}: the array kernel disagrees with the scalar '
+                          f'form / the case is degenerate', {'numba_threads': nt, 'op': nm, 'kind': 'sched'})
         for r in res['runs']:
             if base is None:
                 base = r['digests']      # synchronous, 1 worker, 1 numba thread
@@ -301,7 +320,10 @@ def run(rep):
                 '_perform_intersects_multipoint/_line/_polygon) on seeded random arrays of 0-8 elements with '
                 'missing and empty elements, with and without inds; (2) cx (point / multipoint / polygon column), '
                 'sjoin inner / left, bounds / total_bounds / area / length / intersects_bounds of five geometry '
-                'columns, pack_partitions, pack_partitions_to_parquet (inside and external temporary '
+                'columns (and, on 60 000-element arrays of all 7 kinds built from numpy buffers with a mixed hit/miss box: '
+                'intersects_bounds with and without inds, bounds, total_bounds, length, area, PointArray.intersects '
+                'against 5 shapes, R-tree build / intersects / covers_overlaps, cx; 3 repeats each, compared with the '
+                '1-thread digests and on a sample with the scalar form), pack_partitions, pack_partitions_to_parquet (inside and external temporary '
                 'directories), read_parquet_dask on a 1200-row frame in 4 partitions under scheduler in '
                 '{synchronous, threads} x num_workers in {1,2,4,16} x NUMBA_NUM_THREADS in {1,2,4,16} x seeded '
                 'delays in a wrapping filesystem x switch interval 1e-5; (3) 8 client threads x 5 rounds on 13 '
